@@ -544,15 +544,19 @@ def main(modname, argv):
         ci, f = unknown_fail[0]
         d = descs[ci]
 
+        known_sigs = set(k.get("signature") for k in known)
+
         def still(c):
-            return bool(mod.evaluate(c).oracle)
+            # a case keeps failing only through failures that are not recorded findings
+            return any(fk(c, f2) not in known_sigs for f2 in mod.evaluate(c).oracle)
 
         d2 = shrink_case(mod, d, still)
         ev2 = mod.evaluate(d2)
         if not ev2.oracle:
             d2, ev2 = d, mod.evaluate(d)
+        fails2 = [f2 for f2 in ev2.oracle if fk(d2, f2) not in known_sigs] or ev2.oracle
         payload = {"property": prop, "seed": seed, "tier": tier, "kind": "failing-input",
-                   "case": d2, "oracle_failures": ev2.oracle or [f], "original_case": d,
+                   "case": d2, "oracle_failures": fails2 or [f], "original_case": d,
                    "broken_obligations": broken,
                    "replay_cmd": "./check %s --replay <this file>" % prop}
         replay_path = write_replay(prop, payload)
@@ -621,8 +625,12 @@ def replay(mod, path):
             print("first mismatch case re-evaluated: impl=%s" % ([str(x) for x in ev.impl][:5],))
         return 1
     ev = mod.evaluate(payload["case"])
-    if ev.oracle:
-        print("REPRODUCED property=%s: %s" % (mod.PROPERTY, ev.oracle[:3]))
+    fk = getattr(mod, "finding_key", lambda d, f: f)
+    known_sigs = set(k.get("signature") for k in load_known()
+                     if k.get("property") == mod.PROPERTY and k.get("status") == "open")
+    fails = [f for f in ev.oracle if fk(payload["case"], f) not in known_sigs]
+    if fails:
+        print("REPRODUCED property=%s: %s" % (mod.PROPERTY, fails[:3]))
         return 1
     print("not reproduced (the implementation now satisfies the oracle on this case)")
     return 0
